@@ -3,6 +3,9 @@ Theorems: coq/Props/C02.v.  Streams: cascading programs x budgets x switches; th
 (Spec.Certificate.cert_check = the predicate of C02_certificate evaluated on a state reconstructed from the
 implementation's own symbols + bits) is run on every successful implementation result."""
 import vlib, asm_gen, asm_streams
+import sys, os
+sys.path.insert(0, os.path.dirname(os.path.abspath(__file__)))
+import ext_resolver2
 
 RULE = ("G-isa x G-prog with value-dependent encodings (assert-selected and typed-width cascading families, forward references, "
         "parameters named like constants) x budgets 1..30 x both optimisation switches; every successful implementation result is "
@@ -75,6 +78,8 @@ def run(chk):
     chk.count("certificates_on_impl_output", ncert)
     chk.cov["traces_validated_against_impl"] = len(progs)
     chk.cov["disagreements_checked"] = ndis
+    # the larger fragment (banks, nested symbols): Model/Resolver2.v
+    ext_resolver2.run_streams(chk, quick, which=("correspondence",))
 
 
 def replay(chk, rep):
